@@ -74,6 +74,9 @@ def run_solver(solver, path, timeout):
     first = ''
     for line in out.splitlines():
         line = line.strip()
+        if line.startswith('(error') and not first:
+            first = 'error'        # the solver rejected part of the input (e.g. an operator it does not know): its answer is void
+            break
         if line in ('sat', 'unsat', 'unknown', 'timeout'):
             first = line
             break
